@@ -97,7 +97,7 @@ def r1_r2_init(repo, rep):
   casts = [n for n in g.nodes if n.kind == 'stmt' and isinstance(n.ast, ast.Assign) and re.search(r"(\.geo|\['geo'\])$", norm(n.ast.targets[0]))
            and re.search(r"astype\(('str'|str)\)", norm(n.ast.value))]
   pivots = [n for n in g.nodes if n.kind == 'stmt' and 'pivot_table(' in norm(n.ast) or (n.kind == 'stmt' and '.pivot(' in norm(n.ast))]
-  rep.check(bool(casts) and bool(pivots) and all(casts[0] in doms[p] for p in pivots), 'R1/ingestion', 'geo IDs are cast to str before the pivot', f.qualname,
+  rep.check(bool(casts) and bool(pivots) and all(casts[0] in doms[p] for p in pivots), 'R1/ingestion-ids', 'geo IDs are cast to str before the pivot', f.qualname,
             'astype(str) / pivot order', 'geo IDs are not converted to strings before the table is pivoted: integer and string IDs give different row labels', f.loc())
   # the pivot call
   pcall = None
@@ -112,7 +112,7 @@ def r1_r2_init(repo, rep):
   want = {'values': resp, 'index': "'geo'", 'columns': "'date'"}
   for k, v in want.items():
     a = au.kwarg(pc, k)
-    rep.check(a is not None and norm(a) == v, 'R1/ingestion', 'pivot %s=%s' % (k, v), f.qualname, '%s=%s' % (k, norm(a) if a is not None else 'missing'),
+    rep.check(a is not None and norm(a) == v, 'R1/ingestion-pivot', 'pivot %s=%s' % (k, v), f.qualname, '%s=%s' % (k, norm(a) if a is not None else 'missing'),
               'the panel is pivoted with %s=%s instead of %s' % (k, norm(a) if a is not None else 'missing', v), f.loc(pc))
   agg = au.kwarg(pc, 'aggfunc')
   rep.check(agg is None or norm(agg) in ("'mean'", 'np.mean'), 'R1/ingestion', 'pivot aggregates duplicate cells with the default mean', f.qualname,
@@ -185,8 +185,12 @@ def r1_r2_init(repo, rep):
         exn = norm(r.ast.exc.func) if isinstance(r.ast.exc, ast.Call) else norm(r.ast.exc)
         rep.check(exn == 'ValueError', 'R2/reconciliation', 'missing must-include geos raise ValueError', f.qualname, norm(r.ast)[:80],
                   'missing must-include geos raise %s instead of ValueError' % exn, f.loc(r.ast))
+    se = rd.expand(selnode, sel.slice, keep=('geo_assignments', 'geos_in_data'))[0]
+    wrapped = False
+    while isinstance(se, ast.Call) and isinstance(se.func, ast.Name) and se.func.id in ('sorted', 'list', 'tuple') and len(se.args) == 1:
+      se, wrapped = se.args[0], True
     st = norm(rd.expand(selnode, sel.slice, keep=('geo_assignments', 'geos_in_data'))[0])
-    rep.check(re.fullmatch(r'(sorted|list)\((geos_in_data & geo_assignments\.all|geo_assignments\.all & geos_in_data)\)', st) is not None, 'R2/reconciliation',
+    rep.check(wrapped and norm(se) in ('geos_in_data & geo_assignments.all', 'geo_assignments.all & geos_in_data'), 'R2/reconciliation',
               'the table is narrowed to the geos common to data and eligibility', f.qualname, 'loc[%s]' % st[:100],
               'the eligibility table is narrowed with `%s`, not with the geos present in both the data and the table' % st[:80], f.loc(sel))
   sa = store('assignable')
